@@ -360,6 +360,7 @@ func (e *Enforcer) applyModifiedModel(newModel model.Model) error {
 		if err != nil {
 			if e.autoBuildRoleLinks && needToRebuild {
 				_ = e.BuildRoleLinks()
+				_ = e.rebuildConditionalRoleLinks(e.model)
 			}
 		}
 	}()
@@ -367,11 +368,11 @@ func (e *Enforcer) applyModifiedModel(newModel model.Model) error {
 	if e.autoBuildRoleLinks {
 		needToRebuild = true
 
-		if err := e.rebuildRoleLinks(newModel); err != nil {
+		if err = e.rebuildRoleLinks(newModel); err != nil {
 			return err
 		}
 
-		if err := e.rebuildConditionalRoleLinks(newModel); err != nil {
+		if err = e.rebuildConditionalRoleLinks(newModel); err != nil {
 			return err
 		}
 	}
